@@ -1,0 +1,174 @@
+//! Verification hooks (only compiled with `--cfg boa_verif`).
+//!
+//! Nothing in here changes what the collector does; it only lets an external monitor
+//! force additional collections, read a census of the heap and detect a dereference of
+//! a `Gc` whose box was already swept.
+
+use crate::{BOA_GC, Collector};
+use std::cell::{Cell, RefCell};
+use std::collections::HashSet;
+
+thread_local! {
+    static STRESS_PERIOD: Cell<u64> = const { Cell::new(0) };
+    static STRESS_AT: Cell<u64> = const { Cell::new(0) };
+    static STRESS_RNG: Cell<u64> = const { Cell::new(0) };
+    static ALLOC_COUNTER: Cell<u64> = const { Cell::new(0) };
+    static FORCED: Cell<u64> = const { Cell::new(0) };
+    static FREED_STRONG: Cell<u64> = const { Cell::new(0) };
+    static FREED_WEAK: Cell<u64> = const { Cell::new(0) };
+    static TRACK: Cell<bool> = const { Cell::new(false) };
+    static LIVE: RefCell<HashSet<usize>> = RefCell::new(HashSet::new());
+    static LIVENESS_FAILURES: Cell<u64> = const { Cell::new(0) };
+}
+
+/// A census of the thread's garbage collected heap.
+#[derive(Debug, Clone, Copy, PartialEq, Eq, Default)]
+pub struct Stats {
+    /// Number of live `GcBox`es.
+    pub strong_boxes: usize,
+    /// Number of live ephemeron boxes.
+    pub ephemerons: usize,
+    /// Number of live weak map boxes.
+    pub weak_maps: usize,
+    /// Bytes accounted as allocated.
+    pub bytes_allocated: usize,
+    /// Number of collections run so far.
+    pub collections: usize,
+    /// Collections forced by the stress switch.
+    pub forced_collections: u64,
+    /// Allocations seen by `Allocator::manage_state`.
+    pub allocations: u64,
+    /// Strong boxes freed by sweeps.
+    pub freed_strong: u64,
+    /// Ephemeron boxes freed by sweeps.
+    pub freed_weak: u64,
+    /// Dereferences of a box that is not in the liveness set.
+    pub liveness_failures: u64,
+}
+
+/// Collect additionally on every `n`-th allocation (`None` switches it off).
+pub fn set_stress(every_n: Option<u64>) {
+    STRESS_PERIOD.with(|p| p.set(every_n.unwrap_or(0)));
+    STRESS_RNG.with(|p| p.set(0));
+}
+
+/// Collect additionally at pseudo-random allocation counts with the given mean period.
+pub fn set_stress_random(mean_period: u64, seed: u64) {
+    STRESS_PERIOD.with(|p| p.set(mean_period.max(1)));
+    STRESS_RNG.with(|p| p.set(seed | 1));
+}
+
+/// Collect additionally exactly once, at the `k`-th allocation from now (`0` switches it off).
+pub fn set_collect_at(k: u64) {
+    let now = ALLOC_COUNTER.with(Cell::get);
+    STRESS_AT.with(|p| p.set(if k == 0 { 0 } else { now + k }));
+}
+
+/// Returns the census.
+#[must_use]
+pub fn stats() -> Stats {
+    BOA_GC.with(|gc| {
+        let gc = gc.borrow();
+        Stats {
+            strong_boxes: gc.strongs.len(),
+            ephemerons: gc.weaks.len(),
+            weak_maps: gc.weak_maps.len(),
+            bytes_allocated: gc.runtime.bytes_allocated,
+            collections: gc.runtime.collections,
+            forced_collections: FORCED.with(Cell::get),
+            allocations: ALLOC_COUNTER.with(Cell::get),
+            freed_strong: FREED_STRONG.with(Cell::get),
+            freed_weak: FREED_WEAK.with(Cell::get),
+            liveness_failures: LIVENESS_FAILURES.with(Cell::get),
+        }
+    })
+}
+
+/// Runs a collection even if `bytes_allocated` is zero.
+pub fn collect_now() {
+    BOA_GC.with(|gc| Collector::collect(&mut gc.borrow_mut()));
+}
+
+/// Switch the liveness set on or off (clears it).
+pub fn track_liveness(on: bool) {
+    TRACK.with(|t| t.set(on));
+    LIVE.with(|l| {
+        let mut l = l.borrow_mut();
+        l.clear();
+        if on {
+            BOA_GC.with(|gc| {
+                for node in &gc.borrow().strongs {
+                    l.insert(node.as_ptr().cast::<()>() as usize);
+                }
+            });
+        }
+    });
+}
+
+pub(crate) fn on_alloc_tick() -> bool {
+    let n = ALLOC_COUNTER.with(|c| {
+        c.set(c.get() + 1);
+        c.get()
+    });
+    let mut fire = false;
+    let at = STRESS_AT.with(Cell::get);
+    if at != 0 && n == at {
+        STRESS_AT.with(|p| p.set(0));
+        fire = true;
+    }
+    let period = STRESS_PERIOD.with(Cell::get);
+    if period != 0 {
+        let rng = STRESS_RNG.with(Cell::get);
+        if rng == 0 {
+            if n % period == 0 {
+                fire = true;
+            }
+        } else {
+            // xorshift64
+            let mut x = rng;
+            x ^= x << 13;
+            x ^= x >> 7;
+            x ^= x << 17;
+            STRESS_RNG.with(|p| p.set(x));
+            if x % period == 0 {
+                fire = true;
+            }
+        }
+    }
+    if fire {
+        FORCED.with(|c| c.set(c.get() + 1));
+    }
+    fire
+}
+
+pub(crate) fn on_box_alloc(addr: usize) {
+    if TRACK.with(Cell::get) {
+        LIVE.with(|l| {
+            l.borrow_mut().insert(addr);
+        });
+    }
+}
+
+pub(crate) fn on_box_free(addr: usize, weak: bool) {
+    if weak {
+        FREED_WEAK.with(|c| c.set(c.get() + 1));
+    } else {
+        FREED_STRONG.with(|c| c.set(c.get() + 1));
+    }
+    if TRACK.with(Cell::get) {
+        // The thread local may already be gone when the heap is dumped at thread exit.
+        let _ = LIVE.try_with(|l| {
+            l.borrow_mut().remove(&addr);
+        });
+    }
+}
+
+pub(crate) fn on_deref(addr: usize) {
+    if TRACK.with(Cell::get) {
+        let ok = LIVE.with(|l| l.borrow().contains(&addr));
+        if !ok {
+            LIVENESS_FAILURES.with(|c| c.set(c.get() + 1));
+            panic!("boa_verif: Gc dereferenced after its box was freed ({addr:#x})");
+        }
+    }
+}
